@@ -18,6 +18,7 @@ import time
 
 import e2e
 import keeper
+import pipe
 import vlib
 from vlib import hx
 
@@ -432,6 +433,8 @@ def run_history(chk, binp, steps, salt, strace=False):
                         if j % 8 == 0:
                             # first the key keeper's state actor is the slow one (rules and key reads are answered late), then the status actor
                             real.st.ctl("slowactor key_keeper 6000" if j == 0 else "slowactor agent_status 4000")
+                            pipe.concurrent_aborts(lambda: real.st.connect(audit=(0, real.caller, 1, "168.63.129.16", 80)),
+                                                   lambda q: e2e.build_request("GET", "/machine?comp=goalstate&abort=%d-%d" % (j, q), [(b"Host", b"168.63.129.16")]))
                         c = real.st.connect(audit=(0, real.caller, 1, "168.63.129.16", 80))
                         c.send(e2e.build_request("GET", "/machine?comp=goalstate&abort=%d" % j, [(b"Host", b"168.63.129.16")]))
                         time.sleep(0.004 * (j % 8))
